@@ -52,7 +52,7 @@ var realStub = map[string]string{
 	"x/aol, x/did, x/pnft, x/burn, types/compkey, app/upgrades, app/export": "real",
 	"IAVL + rootmulti commit/load path, cachekv, query.Paginate":             "real",
 	"secp256k1/ed25519 signing and verification":                             "real",
-	"LevelDB":                                                                "stub: SimDB (ordered in-memory dbm.DB; atomic batches, ordered writes, durable sync; crash before write k; power loss keeps a prefix of the un-synced suffix)",
+	"LevelDB":                                                                "stub: SimDB (ordered in-memory dbm.DB over a copy-on-write B-tree: batches become visible to concurrent readers atomically, iterators walk the snapshot current at their creation; ordered writes, durable sync; crash before write k; power loss keeps a prefix of the un-synced suffix)",
 	"CometBFT consensus/p2p/mempool":                                         "stub: sequencer + block delivery with delay/partition/burst catch-up; ABCI handshake replay re-implemented",
 	"x/gov proposals changing consensus parameters (submit, deposit, vote, tally, execution in EndBlock)": "real (SDK x/gov and x/consensus inside the real app; voting period 10 s and minimum deposit 1umed set in the simulated genesis)",
 	"governance vote leading to the upgrade plan":                            "half of the upgrades: real (x/gov proposal with MsgSoftwareUpgrade, vote, tally, execution in EndBlock(H-1)); the other half: stub (UpgradeKeeper.ScheduleUpgrade in the deliver context of block H-1 on every replica); upgrade-info.json dumped by the harness in both",
